@@ -27,14 +27,14 @@ func runC01(c *Check) error {
 	K0, K1, K2 := 3, 2, 2
 	vers := "7.4,5.6"
 	if c.Tier == "thorough" {
-		K0, K1, K2 = 5, 3, 4
+		K0, K1, K2 = 4, 3, 3
 		vers = "7.4,7.2,5.6"
 	}
 	fuel := int64(600_000)
 	c.Bounds = append(c.Bounds,
 		bound("S0 raw input: every byte string of length 0..%d", K0),
 		bound("S1 \"<?php \" / \"<?\" / \"<?=\" / \"<?php\" followed by every byte string of length 0..%d", K1),
-		bound("S2 %d lexical-mode prefixes followed by every byte string of length 0..%d; %d PHP-mode and %d HTML-mode prefixes followed by every byte string of length 0..%d; %d string-offset shapes (\"$a[ / \"$a[- / heredoc $a[-, every byte string of length 0..%d (the first shape) / 0..%d, then ] and the closing quote or label)", len(modePrefixes), K2, len(phpPrefixes), len(rawPrefixes), K1, len(offsetShapes), K2+1, K2),
+		bound("S2 %d lexical-mode prefixes followed by every byte string of length 0..%d; %d PHP-mode and %d HTML-mode prefixes followed by every byte string of length 0..%d (at most 2); %d string-offset shapes (\"$a[ / \"$a[- / heredoc $a[-, every byte string of length 0..%d (the first shape) / 0..%d, then ] and the closing quote or label)", len(modePrefixes), K2, len(phpPrefixes), len(rawPrefixes), K1, len(offsetShapes), K2+1, K2),
 		"versions "+vers+" (one representative per behaviour class; class equivalence is C09's claim), callback set and nil on every path",
 		bound("termination: %d SSA instructions per path (linear budget: a normal parse of these inputs uses < 10%%)", int(fuel)))
 	c.Assumptions = append(c.Assumptions, stdAssumptions...)
@@ -48,7 +48,7 @@ func runC01(c *Check) error {
 		needs = append(needs, JobNeed{Job: jobTmpl("H_C01", "S2", tmpl(tC(p), tH('a', 0, K2)), vers, fuel)})
 	}
 	for _, p := range append(append([]string{}, phpPrefixes...), rawPrefixes...) {
-		needs = append(needs, JobNeed{Job: jobTmpl("H_C01", "S2", tmpl(tC(p), tH('a', 0, K1)), vers, fuel)})
+		needs = append(needs, JobNeed{Job: jobTmpl("H_C01", "S2", tmpl(tC(p), tH('a', 0, prefixK(K1))), vers, fuel)})
 	}
 	for i, ps := range offsetShapes {
 		k := K2
@@ -60,7 +60,7 @@ func runC01(c *Check) error {
 	c.ExploreNeeds(needs, nil)
 	// the corpus (test snippets + grammar sentences) as written, and with one symbolic
 	// byte inserted / replaced / deleted at every n-th offset (S3)
-	every := tierEvery(c, 18, 3)
+	every := tierEvery(c, 18, 6)
 	for _, ver := range []string{"7.4", "5.6"} {
 		whole, err := c.wholeJobs("H_C01", ver, 3_000_000, false)
 		if err != nil {
